@@ -111,7 +111,7 @@ def search(item, seed):
     vals += lists1
     inner = [[1.0], [1.0, 2.0], [1.0, 2.0, 3.0], ["a"], [], [1.0, [2.0]], 1.0]
     vals += [list(t) for m in range(1, 3) for t in itertools.product(inner, repeat=m)]
-    for n in (1, 2, 3):
+    for n in (1, 2, 3, 4, 6):      # 4 and 6: a list may be shorter than the label count and divide it (two values for four labels): rejected, not tiled
         for nest in (False, True):
             for v in vals:
                 why = check_thresholds(v, n, nest)
